@@ -167,8 +167,11 @@ class TypeValueHead(CborArray):
     def do_dissect_payload(self, s):
         # Extract the second item as the payload
         s = s[0]
-        if not s:
+        if not s or isinstance(s, bytes):
+            # a byte string is an item like any other here, dissect()
+            # would take it for an encoding that is still to be decoded
             self.add_payload(CborItem(item=s))
+            return
         CborArray.do_dissect_payload(self, s)
 
     def default_payload_class(self, payload):
